@@ -579,7 +579,7 @@ fn cov_ref(data: &Mat) -> (Mat, f64) {
 }
 
 fn draw_cov(c: &mut Case, n: usize, is32: bool) -> Option<MahaInput> {
-    let kinds = ["identity", "scaled-identity", "diagonal", "spd", "spd", "spd", "equicorrelation", "integer-gram"];
+    let kinds = ["identity", "scaled-identity", "diagonal", "spd", "spd", "spd", "equicorrelation", "integer-gram", "sparse-blocks", "tridiagonal"];
     let kind = *c.rng.pick(&kinds);
     let mut a = match kind {
         "identity" => Mat::eye(n),
@@ -593,6 +593,44 @@ fn draw_cov(c: &mut Case, n: usize, is32: bool) -> Option<MahaInput> {
             let r = *c.rng.pick(&[0.1, 0.5, 0.9, 0.99, -0.5]);
             let r = if r < 0.0 { -0.9 / (n.max(2) as f64 - 1.0) } else { r };
             Mat::from_fn(n, n, |i, j| if i == j { 1.0 } else { r })
+        }
+        "sparse-blocks" => {
+            // 1x1 and 2x2 blocks on the diagonal with exact zeros elsewhere; inside a block the off-diagonal entry is
+            // negative or positive and larger in magnitude than the smaller diagonal entry (pivot exchanges in a column
+            // that ends in zeros); optionally a symmetric permutation
+            let mut a = Mat::zeros(n, n);
+            let mut i = 0;
+            while i < n {
+                if i + 1 < n && c.rng.bool(0.7) {
+                    let d1 = c.rng.logu(0.5, 2.0);
+                    let d2 = c.rng.logu(10.0, 200.0);
+                    let off = (d1 * d2).sqrt() * c.rng.uni(0.3, 0.9) * if c.rng.bool(0.7) { -1.0 } else { 1.0 };
+                    a.set(i, i, d1);
+                    a.set(i + 1, i + 1, d2);
+                    a.set(i, i + 1, off);
+                    a.set(i + 1, i, off);
+                    i += 2;
+                } else {
+                    a.set(i, i, c.rng.logu(0.5, 50.0));
+                    i += 1;
+                }
+            }
+            if c.rng.bool(0.5) {
+                let p = c.rng.perm(n);
+                Mat::from_fn(n, n, |r, q| a.at(p[r], p[q]))
+            } else {
+                a
+            }
+        }
+        "tridiagonal" => {
+            let d: Vec<f64> = (0..n).map(|_| c.rng.logu(1.0, 100.0)).collect();
+            let mut a = Mat::diag(&d);
+            for i in 0..n.saturating_sub(1) {
+                let off = 0.45 * (d[i] * d[i + 1]).sqrt() * c.rng.uni(0.2, 1.0) * if c.rng.bool(0.6) { -1.0 } else { 1.0 };
+                a.set(i, i + 1, off);
+                a.set(i + 1, i, off);
+            }
+            a
         }
         "integer-gram" => {
             let b = Mat::from_fn(n, n + 2, |_, _| c.rng.int(-3, 3) as f64);
